@@ -116,6 +116,98 @@ def jw_sign_rule(chk, src):
     return {x for w in words for x in w} - failed
 
 
+def out_ops_shape_rule(chk, src, rule):
+    """the symbolic bond operators an MPO keeps for later site swaps (`symbolic_out_ops_list`) are produced by two paths of construct_symbolic_mpo: the general builder
+    and a short cut for one-term operators.  Abstract run of both (the decomposition loop as a recorder that returns what it returns: one list of [operator tuples] per
+    bond): the two paths must hand out the same structure - per bond a list of outgoing operators, each a list of operator tuples with symbol / qn / factor - because
+    swap_site reads it that way whatever built it"""
+    from ..syminterp import SymInterp, Sym, Blob, OpenSym, SymRaise
+    fi = src.func(SYM, "construct_symbolic_mpo")
+
+    class OT(Sym):
+        def __init__(self, symbol, qn=None, factor=None):
+            super().__init__("OpTuple")
+            self.symbol, self.qn, self.factor = symbol, qn, factor
+
+    class Tab(Sym):
+        def __init__(self, rows):
+            super().__init__("table")
+            self.rows = rows
+            self.shape = (len(rows), len(rows[0]))
+
+        def __getitem__(self, k):
+            return self.rows[k]
+
+        def __len__(self):
+            return len(self.rows)
+
+    class Qn(Sym):
+        def __add__(self, o):
+            return Qn("qn")
+
+        __radd__ = __add__
+
+        def __getitem__(self, k):
+            return Qn("qn")
+
+    class PrimOp(Sym):
+        def __rmul__(self, o):
+            return self
+
+        __mul__ = __rmul__
+
+        def __hash__(self):
+            return hash(self._name)
+
+        def __eq__(self, o):
+            return isinstance(o, PrimOp) and o._name == self._name
+    prim = [PrimOp(f"prim{j}", qn=Qn("qn")) for j in range(3)]
+    for p_ in prim:
+        p_.__dict__["qn"] = [0]
+
+    class Cell(list):
+        pass
+
+    def full(shape, fill, **k):
+        return [[None] * shape[1] for _ in range(shape[0])]
+
+    def general(table, in_ops, factor, primary_ops, algo="qr"):
+        n_bonds = table.shape[1] - 1
+        return [in_ops] + [[[OT([0, 1], qn=Qn("qn"), factor=1)], [OT([0, 2], qn=Qn("qn"), factor=1)]] for _ in range(n_bonds - 2)] + [[[OT([0, 0], qn=Qn("qn"), factor=1)]]]
+    npx = OpenSym("np", make=lambda t: Qn("qn"), full=full, zeros=lambda shape, **k: Qn("zeros") if not (isinstance(shape, tuple) and len(shape) == 2 and shape[1] == 1 and shape[0] > 1) else Tab([[0]] * shape[0]),
+                  array=lambda x, **k: Qn("qn"), concatenate=lambda parts, axis=None: Tab([[0] + list(r) + [0] for r in parts[1].rows]), uint16="uint16")
+
+    def depth_sig(x):
+        """nesting signature down to the operator tuples"""
+        if isinstance(x, OT):
+            return "T"
+        if isinstance(x, (list, tuple)):
+            inner = sorted({depth_sig(y) for y in x})
+            return "[" + "|".join(inner) + "]"
+        return type(x).__name__
+    class Fac(Sym):
+        def __mul__(self, o):
+            return o if isinstance(o, PrimOp) else self
+
+        __rmul__ = __mul__
+    sigs = {}
+    for name, table in (("one term (short cut)", Tab([[1, 2, 0]])), ("several terms (general builder)", Tab([[1, 2, 0], [0, 1, 2]]))):
+        it = SymInterp(src, None, {"np": npx, "OpTuple": lambda symbol, qn=None, factor=None: OT(symbol, qn, factor), "_construct_symbolic_mpo": general, "compose_symbolic_mo": lambda *a: "mo",
+                                   "logger": Blob("logger"), "List": Blob("List"), "Op": Blob("Op")})
+        it.max_depth = 6
+        try:
+            res = it.call_function(fi, [table, prim, [Fac("f0"), Fac("f1")][:len(table.rows)]])
+        except SymRaise as e:
+            raise AnalysisError(f"{fi.where}[{name}]: raises {e}")
+        if not (isinstance(res, tuple) and len(res) == 6):
+            raise AnalysisError(f"{fi.where}[{name}]: return value is not (mpo, mpoqn, qntot, qnidx, out_ops_list, primary_ops)")
+        sigs[name] = sorted({depth_sig(b) for b in res[4]})
+    a, b = sigs["one term (short cut)"], sigs["several terms (general builder)"]
+    chk.ob(rule, "construct_symbolic_mpo: both construction paths hand out bond operators of one structure", a == b == ["[[T]]"], fi.where, sigs, "per bond: list of outgoing operators, each a list of operator tuples ([[T]])",
+           line=fi.node.lineno, detail="the short cut for one-term operators keeps its bond operators with one nesting level less than the general builder: a later on-the-fly swap of two sites of such an "
+                                       "operator (swap_site reads out_op[0].symbol) fails with AttributeError instead of reordering it")
+
+
 def int_to_h_rule(chk, src, rule):
     """abstract run of h_qc.int_to_h on symbolic one- and two-electron integrals of two spatial orbitals (arrays as index -> sympy expression maps with the numpy operations
     an expansion to spin orbitals plausibly uses): the one-electron part is h[q//2, s//2] between spin orbitals of equal spin and zero between different spins; the
@@ -476,6 +568,8 @@ def run(chk):
     chk.rule("jw-vocabulary", "table_row_swapped_jw recognises the spin-symbol spellings produced by generate_ladder_operator / simplify_op", 2)
     chk.rule("jw-flag", "operator side applies the Jordan-Wigner remapping under the flag passed by try_swap_site (state side: state-swap runs)", 1)
     chk.rule("qc-term-coverage", "qc_model (abstract run on sparse symbolic integrals): one processed term per non-zero integral in both layouts", 2)
+    chk.rule("out-ops-shape", "the bond operators kept for later site swaps have one structure whichever path of construct_symbolic_mpo built them (abstract run of both paths)", 1)
+    out_ops_shape_rule(chk, src, "out-ops-shape")
     chk.rule("spin-orbital-integrals", "int_to_h (abstract run on symbolic integrals of two spatial orbitals): spin-diagonal one-electron part, antisymmetrised two-electron part", 1)
     int_to_h_rule(chk, src, "spin-orbital-integrals")
     chk.rule("jw-sign-parity", "Jordan-Wigner sign of an operator-side site swap over its whole (finite) input space", 2)
